@@ -21,7 +21,7 @@ import (
 	"github.com/crossplane/crossplane/verifh/sim"
 )
 
-var faultOutcomes = []sim.Outcome{sim.ServerError, sim.Timeout, sim.ErrorAfter}
+var faultOutcomes = []sim.Outcome{sim.ServerError, sim.Timeout, sim.ErrorAfter, sim.NotServed, sim.Unavailable}
 
 // base is what the fault-free sequence of a scenario leaves for its aborted-run cases.
 type base struct {
@@ -218,7 +218,7 @@ func pick(c *kit.Ctx, scIdx, k int, kind string) []sim.Outcome {
 		if k%9 != s%9 {
 			return nil
 		}
-		return []sim.Outcome{faultOutcomes[(k/9+s)%3]}
+		return []sim.Outcome{faultOutcomes[(k/9+s)%len(faultOutcomes)]}
 	}
 	if k%3 != s%3 {
 		return nil
